@@ -14,6 +14,7 @@ import json
 import os
 from pathlib import Path
 
+import common
 import jadeenv
 from jadeenv import jname, jid
 
@@ -71,7 +72,7 @@ class Patches:
         self.rc, self.cl = rc, cl
         self.saved = (rc.subprocess, rc.time, cl.socket.gethostname)
         rc.subprocess = FakeSub
-        rc.time = _NoSleep
+        rc.time = common.dual_time(_NoSleep)
         jadeenv.no_repo_info()
         os.environ.setdefault("USER", "verif")
         set_host(CREATOR)
